@@ -868,7 +868,7 @@ class KInterp:
             b = s.val(st, ins.a[1], ins.ty)
             if ins.ty[0] == 'v':
                 return s.vmap(st, dst, [a, b], lambda case, x, y: [(case, s.mul(case, x, y))], ins.ty[1])
-            st.env[dst] = s.mul(c, a, b)
+            st.env[dst] = s.mul(c, a, b, ins.ty[1] if ins.ty[0] == 'i' and ins.ty[1] in (32, 128) else 64)
             return
         if op in ('and', 'or', 'xor'):
             a = s.val(st, ins.a[0], ins.ty)
@@ -1213,13 +1213,15 @@ class KInterp:
             out.append((c2, v))
         return out
 
-    def mul(s, c, a, b):
+    def mul(s, c, a, b, w=64):
         a = s.tokv(c, a)
         b = s.tokv(c, b)
         if a.sh or b.sh:
             raise Undecided('multiplication of a shifted value')
-        if a.hi * b.hi >= M64:
-            raise Undecided('64-bit multiplication that may wrap (operands up to %d, %d)' % (a.hi, b.hi))
+        if a.hi * b.hi >= (1 << w):
+            raise Undecided('%d-bit multiplication that may wrap (operands up to %d, %d)' % (w, a.hi, b.hi))
+        if w != 64:         # e.g. unsigned __int128 product of two zero-extended 64-bit values
+            return mk(c, a.p * b.p, a.lo * b.lo, a.hi * b.hi, w=w)
         return mk(c, a.p * b.p, a.lo * b.lo, a.hi * b.hi)
 
     def bitop(s, c, op, a, b):
